@@ -191,6 +191,8 @@ def judge_mask_ops(obs, mask, box, image, fill, copy, dmask, tag):
                             y, x = y0 + j, x0 + i
                             inside = 0 <= y < shape[0] and 0 <= x < shape[1]
                             wgt = data[j, i]
+                            if data.dtype.kind in 'bu':
+                                wgt = int(wgt)          # plain numbers: the model's arithmetic must not wrap in a narrow unsigned type
                             g = rv[j, i]
                             if wgt > 0:
                                 e = (imv[y, x] if inside else fill) * wgt
@@ -217,6 +219,8 @@ def judge_mask_ops(obs, mask, box, image, fill, copy, dmask, tag):
                 for y in range(max(y0, 0), min(y1, shape[0])):
                     for x in range(max(x0, 0), min(x1, shape[1])):
                         wgt = data[y - y0, x - x0]
+                        if data.dtype.kind in 'bu':
+                            wgt = int(wgt)
                         if wgt > 0 and not (dmask is not None and dmask[y, x]):
                             exp.append(imv[y, x] * wgt)
         rv = val(res)
@@ -233,6 +237,10 @@ def weights(nrng, h, w, pattern):
         d = np.round(nrng.uniform(0.01, 1, (h, w)), 3)
         d[nrng.random((h, w)) < 0.3] = 0.0
         return d
+    if pattern == 'bool':
+        return nrng.random((h, w)) < 0.6
+    if pattern == 'uint8':
+        return (nrng.random((h, w)) < 0.6).astype(np.uint8)
     if pattern == 'signed':                   # user-built masks (e.g. difference masks) may hold negative or NaN weights
         d = np.round(nrng.uniform(-1, 1, (h, w)), 3)
         d[nrng.random((h, w)) < 0.2] = 0.0
@@ -253,6 +261,14 @@ def make_image(nrng, shape, kind):
         return nrng.integers(-100, 100, shape).astype(np.int16)
     if kind == 'int64':
         return nrng.integers(-10 ** 6, 10 ** 6, shape).astype(np.int64)
+    if kind == 'uint16':
+        return nrng.integers(0, 500, shape).astype(np.uint16)
+    if kind == 'bool':
+        return nrng.random(shape) < 0.5
+    if kind == 'view':
+        # an image that does not own its memory: a section of a larger, transposed mosaic
+        big = nrng.normal(0, 10, (nx + 7, ny + 5))
+        return big.T[2:2 + ny, 3:3 + nx]
     if kind == 'float32':
         return nrng.normal(0, 10, shape).astype(np.float32)
     if kind == 'float64-nonfinite':
@@ -304,17 +320,19 @@ def run_case(case, obs):
         if nrng.random() < 0.6:
             x0, y0 = int(nrng.integers(-12, 40)), int(nrng.integers(-12, 40))
         box = (x0, x0 + w, y0, y0 + h)
-        pat = ['ones', 'frac', 'int', 'checker', 'signed'][nrng.integers(5)]
+        pat = ['ones', 'frac', 'int', 'checker', 'signed', 'bool', 'uint8'][nrng.integers(7)]
         mask = RegionMask(weights(nrng, h, w, pat), RegionBoundingBox(*box))
         tag = pat
     shape = (int(nrng.integers(0, 48)), int(nrng.integers(0, 64)))
     if nrng.random() < 0.1:
         shape = (int(nrng.integers(0, 3)), int(nrng.integers(0, 3)))
-    kind = ['int16', 'int64', 'float32', 'float64', 'float64-nonfinite', 'quantity'][nrng.integers(6)]
+    kind = ['int16', 'int64', 'float32', 'float64', 'float64-nonfinite', 'quantity', 'uint16', 'bool', 'view', 'view'][nrng.integers(10)]
     image = make_image(nrng, shape, kind)
     fills = [0.0, 7.0, -1.5, np.nan, np.inf, -np.inf]
     if kind.startswith('int'):
         fills = [0, 7, -3, np.nan, np.inf, -np.inf]
+    if kind in ('uint16', 'bool'):
+        fills = [0, 1, np.nan, np.inf, -np.inf] if kind == 'uint16' else [0, 1, np.nan, np.inf]
     fill = fills[nrng.integers(len(fills))]
     dm = (nrng.random(shape) < 0.3) if nrng.random() < 0.5 else None
     mfp = S.fingerprint(mask)
